@@ -19,6 +19,11 @@ CLAIMED = {
         note="Trusted: Lean kernel; correspondence harness; valid sized RPUs are built by padding the data before the CRC32.",
         design="DESIGN.md section 7 C15",
         technique="Lean 4 proof (arithmetic of the two-group code) + per-size model/implementation digest + exhaustive direct oracle"),
+    "C08": dict(
+        text="Every parsing entry point (raw RPU, UNSPEC62 NAL, AV1 T.35 OBU, ST 2094-10 SEI, RPU .bin file, C API wrappers) is run on mutated, truncated, extreme-valued and random inputs under an address-space limit and time limits; the outcome class must be ok|err and must equal the class predicted by the executable Lean model (which marks third-party panic sites explicitly) for the modelled entry points; Lean theorems state the guards of the model (short buffers are errors, bit reader never panics).",
+        note="Partial: time and memory are runtime facts observed under limits, not proved; ST 2094-10 and the file reader are exercised by direct oracle only; third-party exp-Golomb panics are known findings matched by panic site.",
+        design="DESIGN.md section 7 C08",
+        technique="Lean 4 model with explicit panic outcome + class correspondence + direct oracle under rlimits"),
     "C13": dict(
         text="Lean 4 theorems over the executable model of add/clear_start_code_emulation_prevention_3_byte and of the start-code scan: unesc(esc p) = p for every payload with non-zero first byte, no 00 00 0[0-2] in the escaped form, every 00 00 03 is an inserted byte, a written NAL contains no start code, a written file re-splits to exactly the written units (any mixture of 3/4-byte start codes). The model is tied to the real functions exhaustively over the alphabet of the property (length <= 8 quick, <= 10 thorough) plus line-mode cases; the direct oracle runs on the real code.",
         note="Trusted: Lean kernel; model/real-code tie is differential (exhaustive over the stated alphabet, sampled beyond); hevc_parser's splitter is modelled (validated in the C05 correspondence).",
